@@ -46,8 +46,10 @@ deriving Repr, BEq
     attribute of the first POSITION attribute if it has one already. -/
 def decodeIntegerValuesEb (kind numEntries nc : Nat) (md : MeshData) (pointIds : Array Nat)
     (parent : Option Portable) : DecM (Array Int) := do
+  let ver ← version
   let method ← rdI8
   require (decide (Generated.PREDICTION_NONE ≤ method) && decide (method < Generated.NUM_PREDICTION_SCHEMES))
+  if ver < bsVersion 2 2 then failWith (.unsupported s!"legacy attribute kind={kind} method={method}") else
   let mut scheme := Scheme.none
   let mut unsupp := ""
   if method != Generated.PREDICTION_NONE then
@@ -191,6 +193,7 @@ deriving Inhabited
 
 /-- `PointCloudDecoder::DecodePointAttributes` of `MeshEdgebreakerDecoder` -/
 def decodeAttributes (opts : DecOpts) (mesh : Mesh) : DecM (List Attribute) := do
+  let ver ← version
   let numAtt := mesh.atts.size
   let numDecoders ← rdU8
   -- CreateAttributesDecoder(i)
@@ -207,7 +210,8 @@ def decodeAttributes (opts : DecOpts) (mesh : Mesh) : DecM (List Attribute) := d
     else
       require (decide (posDecoder < 0))
       posDecoder := i
-    let traversalMethod ← rdU8
+    -- the traversal method is stored since bitstream 1.2 (depth first before)
+    let traversalMethod ← if ver ≥ bsVersion 1 2 then rdU8 else pure 0
     require (traversalMethod < Generated.NUM_TRAVERSAL_METHODS.toNat)
     if decoderType == 0 then            -- MESH_VERTEX_ATTRIBUTE
       decoders := decoders.push { attDataId, cornerDecoder := false, traversalMethod }
